@@ -130,11 +130,11 @@ Proof.
   split; [exact W|]. unfold jet1, j1mul. cbn [fst snd]. rewrite R1, C. reflexivity.
 Qed.
 Lemma wf_fdiv_d r a : wf a -> wf (fdiv_d r a).
-Proof. intros W. unfold fdiv_d, dmul_f, dpow, vscale_l. apply (wf_map _ _ (mkDual _ (vs a) _)). apply wf_map. exact W. Qed.
+Proof. intros W. unfold fdiv_d, dmul_f, vscale_l. rewrite dpow_unguard. apply (wf_map _ _ (mkDual _ (vs a) _)). apply wf_map. exact W. Qed.
 Lemma coef_fdiv_d (a : dual R) v : re a <> 0 ->
   coef (fdiv_d 1 a) v = - coef a v / (re a * re a).
 Proof.
-  intros N. unfold fdiv_d, dmul_f, dpow, vscale_l.
+  intros N. unfold fdiv_d, dmul_f, vscale_l. rewrite dpow_unguard.
   rewrite (coef_map _ _ (mkDual _ (vs a) _)) by (cbn; ring).
   rewrite coef_map by (cbn; ring).
   rewrite npow_m2 by exact N. cbn [nmul NumR]. unfold nm1. cbn [nneg n1 NumR]. field. exact N.
